@@ -52,6 +52,8 @@ def run(tier, seed):
     # the schedule under concurrency: a purge scheduled while another thread visits the arenas must not be forgotten (/repo 7a0ea3c, 95404ba);
     # arena dumps at the quiescent points of scheduled executions (Arena.GlobalCoversArenas, Arena.PurgeScheduled)
     jobs = [{"prog": "arena", "strategy": "random", "runs": (150, 1500), "args": ["--rate", "3"]},
+            {"prog": "arena", "strategy": "random", "runs": (300, 300), "args": ["--rate", "3"], "seed": 11, "builds": ["rel"]},     # pinned: schedules in which the pre-7a0ea3c code lost the global expiry
+            {"prog": "arena", "strategy": "random", "runs": (300, 300), "args": ["--rate", "3"], "seed": 12, "builds": ["rel"]},
             {"prog": "arena", "strategy": "pct", "runs": (60, 800), "args": []},
             {"prog": "exit", "strategy": "random", "runs": (60, 800), "args": ["--rate", "3"]},
             {"prog": "exit", "strategy": "random", "runs": (40, 600), "args": ["--size", "600000", "1048576"]}]
